@@ -516,7 +516,59 @@ func checkConnectors(c *fw.Ctx) {
 		}
 	}
 	c.Min(rule+" connector literals", len(sites), 2)
+	// a literal in an unexported helper is attributed to the exported routine it serves (when
+	// there is exactly one): the obligation keeps its name when the routine is split up
+	ownerOf := func(name string) string {
+		var start *ssa.Function
+		for _, f := range c.P.SrcFuncs() {
+			if f.Pkg != nil && f.Pkg.Pkg.Path() == fw.ModPath+"/fclient" && f.Name() == name && f.Signature.Recv() == nil && f.Parent() == nil {
+				start = f
+			}
+		}
+		if start == nil || start.Object() == nil || start.Object().Exported() {
+			return name
+		}
+		roots := map[string]bool{}
+		seen := map[*ssa.Function]bool{start: true}
+		work := []*ssa.Function{start}
+		for len(work) > 0 {
+			cur := work[len(work)-1]
+			work = work[:len(work)-1]
+			for _, f := range c.P.SrcFuncs() {
+				if f.Pkg == nil || f.Pkg.Pkg.Path() != fw.ModPath+"/fclient" {
+					continue
+				}
+				for _, call := range fw.Calls(f) {
+					if call.Common().StaticCallee() != cur {
+						continue
+					}
+					root := f
+					for root.Parent() != nil {
+						root = root.Parent()
+					}
+					if seen[root] {
+						continue
+					}
+					seen[root] = true
+					if root.Object() != nil && root.Object().Exported() {
+						roots[root.Name()] = true
+					} else {
+						work = append(work, root)
+					}
+				}
+			}
+		}
+		if len(roots) == 1 {
+			for r := range roots {
+				return r
+			}
+		}
+		return name
+	}
 	for _, s := range sites {
+		if s.typ == "net/http.Client" {
+			s.fn = ownerOf(s.fn) // (dialers and transports are judged by the constructor they sit in)
+		}
 		construct := fmt.Sprintf("%s literal in %s", s.typ, s.fn)
 		switch s.typ {
 		case "net.Dialer":
